@@ -198,7 +198,7 @@ def judge(ctx, module, cfg, events, shards=16, env=None, timeout=3000, id_key="i
             summ = None
             for pr in r.prints:
                 if pr and pr[0] == "V":
-                    failed[pr[1]] = pr[2]
+                    failed[pr[1]] = pr[2] if len(pr) == 3 else (pr[2],) + tuple(pr[3:])
                 elif pr and pr[0] == "T":
                     trivial.add(pr[1])
                 elif pr and pr[0] == "S":
